@@ -162,12 +162,9 @@ def run(ctx):
 
     # ---- the parameters of the real structs (while TLC checks the abstract model)
     pf = ctx.path("params.ndjson")
-    bg = Bg(lambda: vf.gotest_ok(ctx, PKG, "^TestVerif_C09_Params$", out=pf))
-    # ---- MC: layer 1 |= layer 2 on the bounded universe
-    vf.mc(ctx, "EnvYaml", "EnvYaml_mc.cfg", workers=4, timeout=600)
-    lap(ctx, "tlc mc")
-    ctx.set("exhaustive", True)
-    bg.result()
+    # ---- MC: layer 1 |= layer 2 on the bounded universe (independent of the rest: runs in the background)
+    mcbg = Bg(lambda: vf.mc(ctx, "EnvYaml", "EnvYaml_mc.cfg", workers=4, timeout=900))
+    vf.gotest_ok(ctx, PKG, "^TestVerif_C09_Params$", out=pf)
     lap(ctx, "go params")
     lines = vf.read_ndjson(pf)
     defaults = lines[0]["defaults"]
@@ -191,7 +188,7 @@ def run(ctx):
         raise vf.Infra("generator produced only %d cases" % len(gen))
     ctx.set("cases_generated", len(gen))
     gen.sort(key=lambda c: json.dumps(c, sort_keys=True))
-    limit = ctx.pick(3000, 14000)
+    limit = ctx.pick(2400, 14000)
     if len(gen) > limit:
         # every parameter x value class stays; the contexts are sampled (seeded)
         rnd = random.Random(ctx.seed * 15485863 + 9)
@@ -270,6 +267,9 @@ def run(ctx):
             gk = "%s/%s/%s" % (bad["monitor"], p["kind"], c["vn"])
             groups[gk] = groups.get(gk, 0) + 1
     lap(ctx, "tlc trace validation")
+    mcbg.result()
+    ctx.set("exhaustive", True)
+    lap(ctx, "tlc mc (background)")
     ctx.set("traces_validated_against_impl", len(recs))
     ctx.set("loads", 3 * len(recs))
     expr = [c for c in gen if c["x"]]
